@@ -200,10 +200,13 @@ example : heldOk (callActs (fun _ => 5) [.acq .blocking .unwrap .self_, .acq .bl
 /-- Every function compiled code reaches holds at most one list that other
     threads can see, or takes the two in address order (`==` on lists).  With
     a global order on the mutexes there is no wait cycle between calls.
-    Static check over the generated events (`lockOrderOk`); the general
-    theorem "ordered acquisition ⇒ some thread can always proceed" is NOT
-    proved here (partial): what is proved is that the condition is necessary
-    (`unordered_pairs_deadlock`, `deadlock_is_forever`). -/
+    Static check over the generated events (`lockOrderOk`).  `progress` (below)
+    proves that the discipline (`Inv`: holders are unfinished, a thread about
+    to lock `m` holds only lower or private mutexes, nobody waits for a private
+    mutex) excludes deadlock in every configuration; that every reachable
+    configuration of calls whose events pass `lockOrderOk`/`noRelock` satisfies
+    `Inv` is NOT proved (partial).  The condition is necessary:
+    `unordered_pairs_deadlock`, `deadlock_is_forever`. -/
 theorem builtin_fns_lock_order :
     ∀ f ∈ LockFn.all, f.reachedByBuiltins = true → lockOrderOk f.events [] = true := by
   decide
@@ -249,5 +252,83 @@ theorem deadlock_is_forever (tr : List (Nat × Act)) (s : St)
       rcases ho with ho | ho
       · rw [ho]; exact (hb 0).1
       · exact ih _ ((hb 0).2 ▸ h0) ((hb 1).2 ▸ h1) (fun y hy => htr y (by simp [hy])) o ho
+
+/-! ### why the order matters: ordered acquisition means some thread can always proceed -/
+
+theorem exists_max {α} (f : α → Nat) : ∀ (l : List α), l ≠ [] → ∃ x ∈ l, ∀ y ∈ l, f y ≤ f x
+  | [], h => absurd rfl h
+  | [a], _ => ⟨a, by simp, by simp⟩
+  | a :: b :: r, _ => by
+    obtain ⟨x, hx, hmax⟩ := exists_max f (b :: r) (by simp)
+    by_cases h : f x ≤ f a
+    · refine ⟨a, by simp, ?_⟩
+      intro y hy
+      rcases List.mem_cons.mp hy with rfl | hy
+      · exact Nat.le_refl _
+      · exact Nat.le_trans (hmax y hy) h
+    · refine ⟨x, by simp [hx], ?_⟩
+      intro y hy
+      rcases List.mem_cons.mp hy with rfl | hy
+      · omega
+      · exact hmax y hy
+
+/-- **Progress**: in a configuration that satisfies the lock discipline, if any
+    thread still has something to do, then some thread's next action can
+    proceed — there is no deadlock. -/
+theorem progress (c : Cfg) (inv : Inv c) (h : ∃ t ∈ c.ts, c.prog t ≠ []) :
+    ∃ t ∈ c.ts, ∃ a r, c.prog t = a :: r ∧ enabled c.s a := by
+  -- suppose not: every unfinished thread is about to take a blocking lock that is held
+  apply Classical.byContradiction
+  intro hno
+  have blocked : ∀ t ∈ c.ts, c.prog t ≠ [] → ∃ f m r h', c.prog t = .acq .blocking f m :: r ∧ (c.s m).holder = some h' := by
+    intro t ht hne
+    cases hp : c.prog t with
+    | nil => exact absurd hp hne
+    | cons a r =>
+      cases a with
+      | rel m => exact absurd ⟨t, ht, _, _, hp, trivial⟩ hno
+      | acq k f m =>
+        cases k with
+        | try_ => exact absurd ⟨t, ht, _, _, hp, trivial⟩ hno
+        | blocking =>
+          cases hh : (c.s m).holder with
+          | none => exact absurd ⟨t, ht, _, _, hp, hh⟩ hno
+          | some h' => exact ⟨f, m, r, h', rfl, hh⟩
+  -- the mutex each unfinished thread waits for
+  let want : Nat → Nat := fun t => match c.prog t with
+    | .acq _ _ m :: _ => m
+    | _ => 0
+  let un := c.ts.filter (fun t => decide (c.prog t ≠ []))
+  obtain ⟨t0, ht0, hne0⟩ := h
+  have hun : un ≠ [] := by
+    intro e
+    have : t0 ∈ un := by simp [un, ht0, hne0]
+    simp [e] at this
+  obtain ⟨t, htun, hmax⟩ := exists_max want un hun
+  have ht : t ∈ c.ts ∧ c.prog t ≠ [] := by simpa [un] using htun
+  obtain ⟨f, m, r, h', hp, hh⟩ := blocked t ht.1 ht.2
+  -- the holder of `m` is itself unfinished, hence blocked on some `m2`
+  obtain ⟨hh'ts, hh'ne⟩ := inv.holders m h' hh
+  obtain ⟨f2, m2, r2, h2, hp2, _⟩ := blocked h' hh'ts hh'ne
+  have hne : h' ≠ t := by
+    intro e; subst e
+    exact (inv.ordered h' f m r hp m hh).1 rfl
+  -- it holds `m` and wants `m2`: `m < m2` (m is not private to it: `t` waits for it)
+  have hord := (inv.ordered h' f2 m2 r2 hp2 m hh).2
+  have hlt : m < m2 := by
+    rcases hord with h | h
+    · exact h
+    · exact absurd hp (inv.private_ h' m h t f r (Ne.symm hne))
+  -- contradiction with maximality
+  have h'un : h' ∈ un := by simp [un, hh'ts, hh'ne]
+  have := hmax h' h'un
+  simp [want, hp, hp2] at this
+  omega
+
+-- non-vacuity: a configuration with work to do satisfies the discipline
+example : ∃ c : Cfg, Inv c ∧ ∃ t ∈ c.ts, c.prog t ≠ [] :=
+  ⟨⟨St.init, [0], fun t => if t = 0 then [.acq .blocking .unwrap 3, .rel 3] else [], fun _ _ => False⟩,
+   ⟨by intro m t h; simp [St.init] at h, by intro t f m r _ m' h; simp [St.init] at h, by intro t m h; exact absurd h id⟩,
+   0, by simp, by simp⟩
 
 end RotoV.C10C
